@@ -282,7 +282,39 @@ def enrich_fromaudits(report_: richreports.report, atok) -> richreports.report:
             if isinstance(r, SyntaxRestriction):
                 enrich_syntaxrestriction(report_, r, start, end)
 
+        elif isinstance(a, (ast.List, ast.Subscript)):
+            # The type (or type error) of a list display is shown at its opening bracket,
+            # that of an indexing expression at the bracket that follows the indexed value.
+            if t is not None and not isinstance(t, TypeInParent):
+                if isinstance(a, ast.List):
+                    (start, _) = locations(report_, atok, a)
+                else:
+                    (_, start) = locations(report_, atok, a.value)
+                    start = start + (0, 1)
+                enrich_from_type(report_, t, start, start)
+                _enrich(
+    report_,
+                    start,
+                    start,
+                    '<span class="detail" data-detail="' + type_to_str(t) + '">',
+                    "</span>",
+                    True,
+                    True,
+                )
+
         elif isinstance(a, ast.ListComp):
+            if t is not None and not isinstance(t, TypeInParent):
+                (start, _) = locations(report_, atok, a)
+                enrich_from_type(report_, t, start, start)
+                _enrich(
+    report_,
+                    start,
+                    start,
+                    '<span class="detail" data-detail="' + type_to_str(t) + '">',
+                    "</span>",
+                    True,
+                    True,
+                )
             for generator in a.generators:
                 (start, _) = locations(report_, atok, generator)
                 enrich_keyword(report_, start, 3)
